@@ -1,1 +1,64 @@
 // Kani harnesses compiled inside rs-matter/src/transport/packet.rs (module `verif_kani`).
+
+mod c03 {
+    use super::*;
+
+    use crate::crypto::{AEAD_CANON_KEY_LEN, AEAD_TAG_LEN};
+    use crate::transport::verif_kani::c03::mock::{ref_nonce, MockCrypto};
+
+    const DG_CAP: usize = 24 + 12 + 4 + AEAD_TAG_LEN;
+
+    /// `decode_remaining`: the primitive is called iff a key is given - there is no way for a
+    /// keyed decode to produce a header without the primitive having accepted the message, and
+    /// an unkeyed decode never touches it. With a key: key, nonce (received flags and counter,
+    /// given node id) and AAD (= received header bytes) are what the statement says.
+    // TIER: thorough
+    // KIND: bounded (datagram <= 56 bytes)
+    #[kani::proof]
+    fn c03_packet_decode_primitive_iff_key() {
+        let mut bytes: [u8; DG_CAP] = kani::any();
+        let orig = bytes;
+        let len: usize = kani::any();
+        kani::assume(len <= DG_CAP);
+
+        let keyed: bool = kani::any();
+        let key: [u8; AEAD_CANON_KEY_LEN] = kani::any();
+        let node: u64 = kani::any();
+        let mock = MockCrypto::new(kani::any(), true, 0);
+
+        let mut hdr = PacketHdr::new();
+        let mut pb = ParseBuf::new(&mut bytes[..len]);
+        let r0 = hdr.decode_plain_hdr(&mut pb);
+        kani::assume(r0.is_ok());
+        let hlen = pb.read_off();
+
+        let r = hdr.decode_remaining(
+            &mock,
+            if keyed { Some(crypto::CanonAeadKeyRef::new(&key)) } else { None },
+            node,
+            &mut pb,
+        );
+
+        kani::assert(mock.calls.get() == if keyed { 1 } else { 0 }, "C03.packet.primitive_called_iff_keyed");
+        if keyed {
+            let call = mock.last.get().unwrap();
+            let ctr = u32::from_le_bytes([orig[4], orig[5], orig[6], orig[7]]);
+            kani::assert(call.key == key, "C03.packet.key");
+            kani::assert(call.nonce == ref_nonce(orig[3], ctr, node), "C03.packet.nonce");
+            kani::assert(call.aad_len == hlen, "C03.packet.aad_len");
+            let i: usize = kani::any();
+            if i < hlen {
+                kani::assert(call.aad[i] == orig[i], "C03.packet.aad_is_received_header");
+            }
+            kani::assert(mock.aead_ok || r.is_err(), "C03.packet.refused_is_err");
+        }
+        if r.is_ok() {
+            kani::assert(pb.read_off() >= hlen + 6, "C03.packet.proto_header_consumed");
+        }
+
+        kani::cover!(keyed && r.is_ok(), "keyed accept");
+        kani::cover!(keyed && r.is_err() && !mock.aead_ok, "keyed refuse");
+        kani::cover!(!keyed && r.is_ok(), "plain text accept");
+        kani::cover!(!keyed && r.is_err(), "plain text malformed");
+    }
+}
